@@ -181,6 +181,7 @@ Section Base.
     Variable Q : S -> Prop.
     Hypothesis Hdisp : forall k c a m, Q k -> Q (fst (fst (o_dispatch P k c a m))).
     Hypothesis Hdisc : forall k c a, Q k -> Q (fst (o_disconnect P k c a)).
+    Hypothesis Htick : forall k d, Q k -> Q (fst (o_tick P k d)).
 
     Lemma dispatch_all_core k c a ms : Q k -> Q (fst (fst (fst (dispatch_all P k c a ms)))).
     Proof.
@@ -231,7 +232,8 @@ Section Base.
         + apply auth_part_core; exact H.
         + apply msg_part_core; exact H.
       - destruct (find_conn _ c); [apply drop_core; exact H|exact H].
-      - apply expire_core. exact H.
+      - pose proof (expire_core (mkSt (s_now st + d) (s_conns st) (s_core st)) H) as H1. destruct (expire P cf _) as [st1 o1]. cbn [fst] in H1.
+        pose proof (Htick (s_core st1) d H1) as H2. destruct (o_tick P (s_core st1) d) as [k o2]. exact H2.
     Qed.
 
     Theorem run_core (st : state A S) h : Q (s_core st) -> Q (s_core (fst (run P cf st h))).
